@@ -505,13 +505,15 @@ func scenariosFor(t tmpl, quick bool) []scenario {
 				add(3, 1, true)
 				add(2, 1, false)
 			}
-		} else {
+		} else if !t.Light {
 			add(2, 6, true)
 			add(3, 2, true)
 			add(2, 2, false)
-			if !t.Light {
-				add(3, 1, false)
-			}
+			add(3, 1, false)
+		} else {
+			add(2, 6, true)
+			add(3, 1, true)
+			add(2, 1, false)
 		}
 	case quick && heavy:
 		add(2, 1, true)
@@ -662,7 +664,7 @@ func main() {
 		t := findT(r.Scenario.Tmpl)
 		switch r.Kind {
 		case "fail":
-			if pre, _, ok := strings.Cut(r.Key, ":"); ok && t.Family != "" && strings.HasSuffix(r.Key, ":"+t.Name) {
+			if pre := strings.TrimSuffix(r.Key, ":"+t.Name); t.Family != "" && pre != r.Key {
 				if failingT[pre] == nil {
 					failingT[pre] = map[string]bool{}
 				}
@@ -720,7 +722,7 @@ func main() {
 	// family failures: one root cause fails many templates of the product; reduce each failing
 	// template through the set of failing templates and key the finding by the reduced one
 	for _, p := range tmplKeyed {
-		pre, _, _ := strings.Cut(p.r.Key, ":")
+		pre := strings.TrimSuffix(p.r.Key, ":"+p.t.Name)
 		red := reduceTemplate(p.t, failingT[pre])
 		size := p.r.Size
 		if red != p.t.Name {
